@@ -43,8 +43,8 @@ class RefVal:
     srt: frozenset | None = None
     psort: bool = False
     eng: str = "e1"
-    # an ORDER BY whose order is no longer defined (DISTINCT over a projection that dropped a sort key) may
-    # still sit in the outermost query: burying it is not required to fail, but the engine MAY refuse
+    # reserved "the engine MAY refuse to bury an ORDER BY here" state; no rule sets it any more (C11's
+    # last sentence is read literally: every sort no slice has consumed is pending - ``psort``)
     osort: bool = False
     # sub-bag rule: when ``amb``, every legal result is a sub-bag of ``base`` (the per-row operations and
     # deduplications applied since the ambiguous slice, applied to that slice's WHOLE input); None = no claim
@@ -132,12 +132,6 @@ def _restriction_error(expr, kind):
     return want != kind and want not in _ALSO_ALLOWED
 
 
-def _sort_still_expressible(val: RefVal, cols) -> bool:
-    """A pending (unsliced) sort can be carried to the outermost query level as long as every column it
-    reads is still visible; a selection/calculation that needs a subquery must then keep it there (C11)."""
-    return val.srt is not None and val.srt <= frozenset(cols)
-
-
 def ref_apply(
     val: RefVal, op, scen: Scenario, marker_has_sort: bool | None = None, observed_engine: str | None = None
 ) -> RefVal:
@@ -186,7 +180,7 @@ def ref_apply(
         if errs:
             raise RefReject(errs, f"calc {t}")
         det = val.det and (not sql or bool(marker_has_sort))
-        ps = val.psort and (bool(marker_has_sort) or _sort_still_expressible(val, cols | {t}))
+        ps = val.psort  # a pending sort stays pending through row-wise operations (C11, last sentence)
         base = None if val.base is None else tuple({**r, t: A.ref_eval(e, r)} for r in val.base)
         return rep(
             val, rows=tuple({**r, t: A.ref_eval(e, r)} for r in rows), cols=cols | {t}, det=det, psort=ps, base=base
@@ -213,7 +207,7 @@ def ref_apply(
         if errs:
             raise RefReject(errs, "sel")
         det = val.det and (not sql or bool(marker_has_sort))
-        ps = val.psort and (bool(marker_has_sort) or _sort_still_expressible(val, cols))
+        ps = val.psort
         out = tuple(r for r in rows if A.ref_eval(p, r))
         base = None if val.base is None else tuple(r for r in val.base if A.ref_eval(p, r))
         return rep(val, rows=out, det=det, psort=ps, cdet=val.cdet and not val.amb, base=base)
@@ -221,19 +215,8 @@ def ref_apply(
         if not sql and fd_violated(rows, cols):
             raise RefOOC("dedup on rows violating the is_key functional dependency")
         det = val.det and (not sql or val.srt is None or val.srt <= cols)
-        # DISTINCT over a projection that dropped a sort key leaves no defined order: from here on there is
-        # no sort left that a join/chain/materialization could drop (the engine may still refuse)
-        ps = val.psort and _sort_still_expressible(val, cols)
         base = None if val.base is None else tuple(first_occurrence_dedup(val.base))
-        return rep(
-            val,
-            rows=tuple(first_occurrence_dedup(rows)),
-            det=det,
-            psort=ps,
-            osort=val.osort or (val.psort and not ps),
-            cdet=val.cdet and not val.amb,
-            base=base,
-        )
+        return rep(val, rows=tuple(first_occurrence_dedup(rows)), det=det, cdet=val.cdet and not val.amb, base=base)
     if k == "sort":
         terms = op[1]
         if not terms:
